@@ -1024,6 +1024,8 @@ def case_history(ctx, c):
                 if h["kind"] in NONLINEAR or h["fill"] != "extrapolate":
                     kk = numpy.array(O.ref_interp(O.table(*model_arrays(model)), qc0, qp0)[1]) != "outside"
                     qc0, qp0 = qc0[kk], qp0[kk]
+                mc0, mp0, _ = model_arrays(model)            # the donor's own markers are always part of the comparison
+                qc0 = numpy.r_[mc0, qc0.astype("int64")]; qp0 = numpy.r_[mp0, qp0]
                 okb, before = guarded(ctx, S("interp_genpos"), icls, coords, lambda: gm.interp_genpos(qc0, qp0), W) if len(qc0) else (False, None)
 
                 def mk():
